@@ -636,6 +636,26 @@ func ruleC08InnerNonNull(c *Ctx) {
 	}
 	if exec := c.P.Method(modPath, "Query", "exec"); exec != nil && !ok {
 		if scan := c.findExecScan(exec); scan != nil {
+			// a third way to the same end: exec never hands out a nil slice at all
+			if paths, err := scan.after(WalkCfg{MaxVisits: 1, MaxPaths: 8000, NoEffects: true}); err == nil {
+				n, nilSeen := 0, false
+				for _, p := range paths {
+					if p.Exit != "return" || len(p.Ret) != 2 || !p.Ret[1].Nil {
+						continue
+					}
+					n++
+					if r := p.Ret[0]; r.Nil || r.T != nil && r.T.Op == "const" && r.T.Name == "nil" {
+						nilSeen = true
+					}
+				}
+				if n > 0 && !nilSeen {
+					ok = true
+				} else {
+					whys = append(whys, "exec can return a nil slice")
+				}
+			}
+		}
+		if scan := c.findExecScan(exec); scan != nil && !ok {
 			good, why := normalises(scan.fn, func(t *Term) bool {
 				if t == nil {
 					return false
